@@ -4,8 +4,8 @@ import warnings
 
 import numpy as np
 
-from traits.api import (Any, Array, Dict, HasTraits, Instance, Int, List, Map,
-                        Set, Str, Trait, Tuple, Union)
+from traits.api import (Any, Array, Dict, Enum, HasTraits, Instance, Int, List,
+                        Map, Set, Str, Trait, TraitType, Tuple, Union)
 
 LEVEL = "model_checking"
 RULE = ("every history up to the depth bound over operations on one instance "
@@ -30,11 +30,33 @@ MIN_OUTCOMES = {t: ["default-read", "siblings-checked", "dyn-default-once",
 TIMEOUT = {"quick": 1200, "thorough": 7200}
 
 NAMES = ["c", "al", "ad", "l", "d", "s", "inst", "dyn", "tl", "tls", "u",
-         "arr", "fl", "bg", "border", "frame", "mp"]
+         "arr", "fl", "bg", "border", "frame", "mp", "bag", "pick"]
+#: property-style trait types keep their value under another __dict__ key
+STORE = {"bag": "_traits_cache_bag", "pick": "_traits_cache_pick"}
+
+
+def skey(n):
+    return STORE.get(n, n)
+
 #: expectations that do not come from the implementation
-DECLARED = {"bg": "red", "border": "blue", "frame": "red", "mp": "a"}
+DECLARED = {"bg": "red", "border": "blue", "frame": "red", "mp": "a",
+            "bag": [], "pick": "b"}
 CONTAINERS = {"al": "list", "ad": "dict", "l": "list", "d": "dict",
-              "s": "set", "dyn": "list", "u": "list", "fl": "list"}
+              "s": "set", "dyn": "list", "u": "list", "fl": "list",
+              "bag": "list"}
+
+
+class Bag(TraitType):
+    """get/set based trait type caching its value with the documented
+    get_value / set_value helpers"""
+    default_value = []
+
+    def get(self, obj, name):
+        return self.get_value(obj, name)
+
+    def set(self, obj, name, value):
+        self.set_value(obj, name, list(value))
+
 
 
 def make_classes():
@@ -56,6 +78,14 @@ def make_classes():
             border = Shade
             frame = Shade
             mp = Map({"a": 1, "b": 2})
+            bag = Bag()
+            choices = List(Str, value=["a", "b", "c"])
+            pick = Enum(values="choices")
+
+            def _pick_default(self):
+                cnt = self.__dict__.setdefault("_pick_runs", [0])
+                cnt[0] += 1
+                return "b"
 
             def _border_default(self):
                 return "blue"
@@ -167,7 +197,8 @@ def submenu():
 
 VALID = {"c": 11, "al": [5], "ad": {"k": 1}, "l": [4], "d": {"k": 2},
          "s": {6}, "dyn": [8], "tl": ([3], 3), "tls": ([3], "q"), "u": [2],
-         "fl": [1], "bg": "green", "border": "green", "mp": "b"}
+         "fl": [1], "bg": "green", "border": "green", "mp": "b",
+         "bag": [3], "pick": "c"}
 
 
 class World:
@@ -239,7 +270,7 @@ def apply(ctx, w, ev, hist, check):
                       msg, history=hist, actor=w.cls.__name__)
     if k in ("read", "mutate"):
         n = ev[1]
-        first = n not in a.__dict__
+        first = skey(n) not in a.__dict__
         log = a.__dict__.setdefault("_log", [])
         nlog = len(log)
         hcalls = sum(len(f.log) for f in w.handlers.values())
@@ -356,8 +387,8 @@ def containers_of(obj):
             for x in v.values():
                 walk(x, where)
     for n in NAMES:
-        if n in obj.__dict__:
-            walk(obj.__dict__[n], n)
+        if skey(n) in obj.__dict__:
+            walk(obj.__dict__[skey(n)], n)
     return out
 
 
@@ -406,6 +437,11 @@ def final_check(ctx, w, hist):
         bad("shared-definition-object", "another class using the same trait "
             "definition object reads %r, declared default is 'red'"
             % (other.shade,))
+    for cname, o in [("acting", w.a)] + w.sibs + late:
+        pruns = o.__dict__.get("_pick_runs", [0])[0]
+        if pruns > 1:
+            bad("pick-default-twice", "_pick_default (dynamic Enum) ran %d "
+                "times on the %s instance" % (pruns, cname))
     mruns = w.a.__dict__.get("_mp_runs", [0])[0]
     if mruns > 1 + w.dels:
         bad("map-default-twice", "_mp_default ran %d times on the acting "
@@ -481,7 +517,8 @@ def canon(w):
     a = w.a
     st = []
     for n in NAMES:
-        st.append((n, plain(a.__dict__[n]) if n in a.__dict__ else "unset"))
+        st.append((n, plain(a.__dict__[skey(n)]) if skey(n) in a.__dict__
+                   else "unset"))
     return (w.cls.__name__, st, sorted(a._instance_traits()),
             sorted(k for k, f in w.handlers.items()
                    if getattr(f, "on", False)),
